@@ -150,12 +150,6 @@ theorem chk_sptensor_setitem (p : Params) (ops : List View) (h : atLeast 2 p ops
 
 /-! ### matricized -/
 
-theorem chk_tenmat_init (p : Params) (ops : List View) (h : atLeast 1 p ops.length = true) :
-    specCheck (noCopyIf [0] p) ops.length (tenmat_init p ops) = true := by
-  have h0 : 0 < ops.length := by simp [atLeast] at h; omega
-  unfold tenmat_init noCopyIf
-  cases hc : p.copy <;> ifs <;> (repeat' split) <;> first | (chk_simp; done) | (exfalso; simp at *)
-
 theorem chk_tenmat_to_tensor (p : Params) (ops : List View) (h : atLeast 1 p ops.length = true) :
     specCheck (noCopyIf [0] p) ops.length (tenmat_to_tensor p ops) = true := by
   have h0 : 0 < ops.length := by simp [atLeast] at h; omega
@@ -172,13 +166,6 @@ theorem chk_tenmat_setitem (p : Params) (ops : List View) (h : atLeast 3 p ops.l
   have h1 : 1 < ops.length := by simp [atLeast] at h; omega
   have h2 : 2 < ops.length := by simp [atLeast] at h; omega
   unfold tenmat_setitem; chk_simp
-
-theorem chk_sptenmat_init (p : Params) (ops : List View) (h : atLeast 2 p ops.length = true) :
-    specCheck (noCopyIf [0, 1] p) ops.length (sptenmat_init p ops) = true := by
-  have h0 : 0 < ops.length := by simp [atLeast] at h; omega
-  have h1 : 1 < ops.length := by simp [atLeast] at h; omega
-  unfold sptenmat_init noCopyIf
-  cases hc : p.copy <;> ifs <;> (repeat' split) <;> first | (chk_simp; done) | (exfalso; simp at *)
 
 theorem chk_sptenmat_double (p : Params) (ops : List View) :
     specCheck .pureFresh ops.length (sptenmat_double p ops) = true := by
@@ -622,15 +609,15 @@ theorem chk_alg_returns_init (p : Params) (ops : List View)
 
 /-- Every entry of the operation table passes the static check of its specification, for all
 parameters and every operand list that satisfies the entry's precondition. -/
-theorem table_sound : ∀ e ∈ table, ∀ (p : Params) (ops : List View), e.check p ops = true := by
+theorem table1_sound : ∀ e ∈ table1, ∀ (p : Params) (ops : List View), e.check p ops = true := by
   intro e he p ops
-  simp only [table, List.mem_cons, List.mem_singleton, List.not_mem_nil, or_false] at he
+  simp only [table1, List.mem_cons, List.mem_singleton, List.not_mem_nil, or_false] at he
   unfold Entry.check
   by_cases hpre : e.pre p ops.length = true
   · simp only [hpre, Bool.not_true, Bool.false_or]
     rcases he with rfl | rfl | rfl | rfl | rfl | rfl | rfl | rfl | rfl | rfl | rfl | rfl | rfl | rfl | rfl |
       rfl | rfl | rfl | rfl | rfl | rfl | rfl | rfl | rfl | rfl | rfl | rfl | rfl | rfl | rfl | rfl | rfl |
-      rfl | rfl | rfl | rfl | rfl | rfl | rfl | rfl | rfl | rfl | rfl | rfl | rfl | rfl | rfl | rfl | rfl | rfl
+      rfl | rfl | rfl | rfl | rfl | rfl | rfl | rfl | rfl | rfl | rfl | rfl | rfl | rfl | rfl | rfl
     · exact chk_tensor_init p ops hpre
     · exact chk_tensor_copy p ops
     · exact chk_tensor_double p ops
@@ -668,11 +655,9 @@ theorem table_sound : ∀ e ∈ table, ∀ (p : Params) (ops : List View), e.che
     · exact chk_ttensor_init p ops (by simpa using hpre)
     · exact chk_copy_all p ops
     · exact chk_alias_all p ops (by simpa using hpre)
-    · exact chk_tenmat_init p ops hpre
     · exact chk_tenmat_to_tensor p ops hpre
     · exact chk_tenmat_getitem p ops
     · exact chk_tenmat_setitem p ops hpre
-    · exact chk_sptenmat_init p ops hpre
     · exact chk_sptenmat_double p ops
     · exact chk_sptenmat_setitem p ops hpre
     · exact chk_tt_ind2sub p ops
